@@ -694,6 +694,13 @@ Definition run (c : obs) : obs :=
           end
       | _, _ => E eBadCase
       end
+  (* 10: extract_serial_from_query on a hand-made query: question rdtype, SOA serial in the authority section or none *)
+  | L [I 10; I qt; au] =>
+      match oz_of_obs au with
+      | Some au => match extract_serial (qt, au) with
+                   | Ok (Some n) => I n | Ok None => N | Lib e => E e | Internal e => E e end
+      | None => E eBadCase
+      end
   (* 4: dns.serial.Serial(a) < b *)
   | L [I 4; I a; I b] => L [ob (serial_lt a b); ob (serial_le a b); ob (serial_gt a b); ob (serial_ge a b); ob (serial_eq a b)]
   (* 7: (Serial(a) + d).value *)
